@@ -256,6 +256,14 @@ pub fn catch<T>(f: impl FnOnce() -> T) -> Caught<T> {
 
 /// Strip a leading directory so that panic locations are stable across checkouts.
 pub fn short_loc(loc: &str) -> String {
+    // a dependency from the cargo registry: crate-version/src/file.rs:line (the registry directory's
+    // name differs between machines)
+    if let Some(i) = loc.find("/registry/src/") {
+        let rest = &loc[i + "/registry/src/".len()..];
+        if let Some(j) = rest.find('/') {
+            return rest[j + 1..].to_string();
+        }
+    }
     for marker in ["/core/src/", "/macro/src/", "/src/"] {
         if let Some(i) = loc.find(marker) {
             return loc[i + 1..].to_string();
